@@ -344,6 +344,24 @@ def c14(out, a):
             exp = np.zeros((27, 3))
             exp[pts] = vals
             out.write({"id": rid, "kind": "pointload", "nt": True, "f": q(item.assemble.vector(f).toarray()[:, 0], S), "expectf": q(exp, S)})
+        # point loads with every option and history: constructed / updated once / updated twice, plain or ring load (2 pi r),
+        # applied on the first field of a mixed container; the law is stated for the values of the LAST update
+        for axi in (False, True):
+            for hist in (0, 1, 2):
+                rid = "pointload-%s-upd%d-%d" % ("axi" if axi else "plain", hist, rep)
+                if not out.want(rid):
+                    continue
+                mesh = fem.Rectangle(a=(0, 0.5), b=(1, 1.5), n=3)
+                reg = fem.RegionQuad(mesh)
+                f = fem.FieldContainer([(fem.FieldAxisymmetric if axi else fem.FieldPlaneStrain)(reg, dim=2)])
+                pts = sorted(rng.choice(9, size=3, replace=False).tolist())
+                seq = [rng.randint(-4, 5, size=(3, 2)).astype(float) for _ in range(hist + 1)]
+                item = fem.PointLoad(f, pts, values=seq[0], axisymmetric=axi)
+                item.assemble.vector(f)
+                for v in seq[1:]:
+                    item.update(v)
+                out.write({"id": rid, "kind": "pointload2", "nt": True, "fd": 2, "f": q(item.assemble.vector(f).toarray()[:, 0], S),
+                           "pts": [int(p_) + 1 for p_ in pts], "vals": qi(seq[-1]), "axi": bool(axi), "r8": qi(np.rint(mesh.points[pts, 1] * 8))})
         # follower pressure: on one face and on the closed surface
         for where in ("face", "closed"):
             rid = "pressure-%s-%d" % (where, rep)
@@ -370,6 +388,21 @@ def c14(out, a):
             item = fem.MultiPointConstraint(f, points=pts, centerpoint=m.npoints - 1, skip=(0, 0, 0), multiplier=4.0)
             out.write({"id": rid, "kind": "balance", "nt": True, "fd": 3, "f": q(item.assemble.vector(f).toarray()[:, 0], S), "x": positions(f, 3),
                        "XS": XS, "dirs": [1, 2, 3], "moment": False, "about": [0, 0, 0]})
+        # ... with every combination of skipped axes (forces along skipped axes vanish, the rest is self-equilibrated), and contact
+        for skip in [(1, 0, 0), (0, 1, 0), (0, 0, 1), (1, 1, 0), (1, 0, 1), (0, 1, 1)]:
+            for cls in ("constraint", "contact"):
+                rid = "balance-mpc-%s-skip%d%d%d-%d" % ((cls,) + skip + (rep,))
+                if not out.want(rid):
+                    continue
+                m = fem.Cube(n=3)
+                m = fem.Mesh(np.vstack([m.points, [[0.5, 0.5, 0.5]]]), m.cells, m.cell_type)
+                f = state(fem.FieldContainer([fem.Field(fem.RegionHexahedron(m), dim=3)]), rng, amp=1 / 4.0)
+                pts = np.arange(m.npoints)[m.points[:, 0] == 1]
+                Item = fem.MultiPointConstraint if cls == "constraint" else fem.MultiPointContact
+                item = Item(f, points=pts, centerpoint=m.npoints - 1, skip=skip, multiplier=4.0)
+                fv = item.assemble.vector(f).toarray()[:, 0]
+                out.write({"id": rid, "kind": "balance", "nt": bool(np.any(fv != 0)), "fd": 3, "f": q(fv, S), "x": positions(f, 3),
+                           "XS": XS, "dirs": [1, 2, 3], "moment": False, "about": [0, 0, 0], "skipped": [k + 1 for k in range(3) if skip[k]]})
         # mass matrices
         for kind in ("hex1", "quad", "hex"):
             rid = "mass-%s-%d" % (kind, rep)
